@@ -449,6 +449,66 @@ def ftrlFitHistory [Transc α] (max35 : α) (r32 : α → α) (hp : FtrlHp α) (
     let s := ftrlFitWith max35 r32 hp z0 model b
     s :: ftrlFitHistory max35 r32 hp z0 (some s) rest
 
+/-! ### round 3: the pieces the theorems talk about, as functions the driver runs -/
+
+/-- `update_min_dists` + `dists.sum()` of one initialisation candidate on the first batch: the cost the
+`n_runs` loop of `fit_with(None, ..)` compares -/
+def kmInitCost (m : Metric) (obs : List (List α)) (c : List (List α)) : α :=
+  sumS (obs.map fun x => (closestBy m c x).2)
+
+/-- k-means `fit_with(None, first)` with a NON-precomputed initialisation, then the caller's loop.
+`cands` are the centroid matrices of the `n_runs` initialisation runs in the order they are drawn
+(external: `KMeansInit::run` on the parameters' generator); the code keeps the `min_by` candidate of
+their costs on the first batch (`pickInit`), starts from it with `cluster_count = 0` and goes on as
+with precomputed centroids.  `none`: no candidate (`n_runs = 0`, the `unwrap` of the real code). -/
+def kmFitInitHistory [Transc α] (m : Metric) (tol : α) (cands : List (List (List α)))
+    (hist : List (List (List α))) : Option (List (KState α × Bool × α)) :=
+  match hist with
+  | [] => some []
+  | first :: _ =>
+    match pickInit (cands.map fun c => (c, kmInitCost m first c)) with
+    | none => none
+    | some best => some (kmFitHistory m tol best.1 none hist)
+
+/-- an `Ftrl` value: the hyper-parameters are stored IN the model (copied from the parameters by
+`Ftrl::new`) next to `z` and `n` -/
+structure FModel (α : Type) where
+  hp : FtrlHp α
+  st : FState α
+
+/-- FTRL `fit_with(model_in, batch)` of parameters carrying `hpParams`: a missing model is
+`Ftrl::new(params)` (the parameters' hyper-parameters, the drawn `z`, `n = 0`); the update itself —
+`get_weights`, `calculate_sigma`, `update_params` are methods of the MODEL — uses the
+hyper-parameters stored in the model, never the parameters' -/
+def ftrlFitWithM [Transc α] (max35 : α) (r32 : α → α) (hpParams : FtrlHp α) (z0 : List α)
+    (model : Option (FModel α)) (b : List (List α) × List Bool) : FModel α :=
+  let m := model.getD ⟨hpParams, ftrlFresh z0⟩
+  ⟨m.hp, ftrlStep max35 r32 m.hp z0.length m.st b⟩
+
+/-- the caller's loop where every call may come from different parameters -/
+def ftrlFitHistoryM [Transc α] (max35 : α) (r32 : α → α) (z0 : List α) :
+    Option (FModel α) → List (FtrlHp α × (List (List α) × List Bool)) → List (FModel α)
+  | _, [] => []
+  | model, hb :: rest =>
+    let s := ftrlFitWithM max35 r32 hb.1 z0 model hb.2
+    s :: ftrlFitHistoryM max35 r32 z0 (some s) rest
+
+/-- the gradient vectors of a history of `fit_with` calls, one per batch: `calculate_gradient` on the
+probabilities predicted by the state BEFORE the batch -/
+def ftrlGradSeq [Transc α] (max35 : α) (r32 : α → α) (hp : FtrlHp α) (p : Nat) :
+    FState α → List (List (List α) × List Bool) → List (List α)
+  | _, [] => []
+  | st, b :: rest =>
+    let g := ftrlGradient p (ftrlProbs max35 r32 hp st b.1) b.1 b.2
+    g :: ftrlGradSeq max35 r32 hp p (ftrlUpdate hp st g) rest
+
+/-- the textbook model of a whole dataset: one record per class that occurs (`gnbTextbook`) -/
+def gnbTextbookState (vs : α) (p : Nat) (d : Batch α) : GState α :=
+  (labelsOf d).map fun c => (c, gnbTextbook vs p d c)
+
+def mnbTextbookState [Transc α] (alpha : α) (p : Nat) (d : Batch α) : MState α :=
+  (labelsOf d).map fun c => (c, mnbTextbook alpha p d c)
+
 end Generic
 
 end LinfaSpec.Incremental
